@@ -108,6 +108,9 @@ func (v DenseInt64Vector) ReverseOrder() {
   }
 }
 func (v DenseInt64Vector) Slice(i, j int) Vector {
+  if i < 0 || j > len(v) || i > j {
+    panic("Slice(): range is out of bounds")
+  }
   return v[i:j]
 }
 func (v DenseInt64Vector) Swap(i, j int) {
@@ -161,6 +164,9 @@ func (v DenseInt64Vector) ConstAt(i int) ConstScalar {
   return Int64{&v[i]}
 }
 func (v DenseInt64Vector) ConstSlice(i, j int) ConstVector {
+  if i < 0 || j > len(v) || i > j {
+    panic("Slice(): range is out of bounds")
+  }
   return v[i:j]
 }
 func (v DenseInt64Vector) AsConstMatrix(n, m int) ConstMatrix {
